@@ -358,8 +358,62 @@ def run_random(case):
     return ck.results()
 
 
+# --------------------------------------------------------------------------
+# buffer size of the patch writers (reachable through yaw.catalog.catalog.write_patches)
+# --------------------------------------------------------------------------
+@st.composite
+def buffer_case(draw):
+    n, degrees, table = draw(table_case(min_rows=2, max_rows=80))
+    _, recs = sources.expected_records(table, degrees)
+    uniq = np.unique(recs[:, :2], axis=0)
+    K = draw(st.integers(1, min(4, len(uniq))))
+    idx = draw(st.lists(st.integers(0, len(uniq) - 1), min_size=K, max_size=K, unique=True))
+    return {"n": n, "degrees": degrees, "table": table, "centers": uniq[idx].tolist(), "chunksize": draw(chunksize_for(n)),
+            "buffersize": draw(st.sampled_from([-1, 0, 1, 2, 3, 7, n, 10 * n])), "workers": draw(st.sampled_from([1, 1, 3])), "tape": draw(st.lists(st.integers(0, 5), max_size=10))}
+
+
+def run_buffer(case):
+    import pandas as pd
+
+    from yaw import AngularCoordinates, Catalog
+    from yaw.catalog.catalog import write_patches
+    from yaw.catalog.readers import DataFrameReader
+
+    table = case["table"]
+    names, exp = sources.expected_records(table, case["degrees"])
+    cen = np.array(case["centers"], dtype=float)
+    want, margin = pl.nearest_centre(pl.to_xyz(exp[:, 0], exp[:, 1]), pl.to_xyz(cen[:, 0], cen[:, 1]))
+    if margin.min() < 1e-12:
+        return Result.discard("equidistant-object")
+    if len(set(want.tolist())) != len(cen):
+        return Result.discard("centre-without-object")
+    b = case["buffersize"]
+    ck = Checker(case["n"] > case["chunksize"] and 0 < b < case["n"], classes=[f"buffersize:{'-1' if b < 0 else ('0' if b == 0 else ('<n' if b < case['n'] else '>=n'))}", f"workers:{case['workers']}"])
+    with Scratch() as tmp:
+        try:
+            reader = DataFrameReader(pd.DataFrame(sources.table_columns(table)), chunksize=case["chunksize"], degrees=case["degrees"], **{k: v for k, v in sources.column_names(table).items()})
+            centers = AngularCoordinates(cen)
+            if case["workers"] > 1:
+                with schedpool.Patched(case["tape"]):
+                    write_patches(tmp / "c", reader, centers, overwrite=False, progress=False, max_workers=case["workers"], buffersize=b)
+            else:
+                write_patches(tmp / "c", reader, centers, overwrite=False, progress=False, max_workers=1, buffersize=b)
+            cat = Catalog(tmp / "c", max_workers=1)
+        except Exception as e:  # noqa
+            ck.fail(f"write_patches|{exc_sig(e)}", f"buffersize={b}: {type(e).__name__}: {e}")
+            return ck.results()
+        stored = sources.stored_records(cat)
+        for pid in sorted(set(want.tolist()) | set(stored)):
+            got = sources.multiset(stored.get(pid, np.empty((0, exp.shape[1]))))
+            if got != sources.multiset(exp[want == pid]):
+                ck.fail("buffersize:records-differ", f"buffersize={b}, chunksize={case['chunksize']}: patch {pid} holds {len(got)} records, expected {int((want == pid).sum())}")
+                break
+    return ck.results()
+
+
 def components():
     return [
-        Component("create", case_strategy(), run_case, quick=1200, thorough=30_000),
+        Component("create", case_strategy(), run_case, quick=1000, thorough=30_000),
         Component("random", random_case(), run_random, quick=300, thorough=8_000),
+        Component("buffers", buffer_case(), run_buffer, quick=400, thorough=10_000),
     ]
